@@ -6,6 +6,7 @@ import (
 	"html/template"
 	"reflect"
 	"strings"
+	"time"
 
 	"github.com/gobuffalo/plush/v5"
 
@@ -235,10 +236,10 @@ func (g *c01Gen) route(d int, expr string, v c01Val) (string, []c01Seg) {
 	}
 }
 
-const c01NSources = 19
+const c01NSources = 20
 
 var c01SourceNames = []string{"ctx-var", "dq-literal", "bq-literal", "struct-field", "ptr-struct-field", "nested-struct-field", "map-element", "map-iface-element",
-	"strings-element", "ifaces-element", "helper-string", "helper-iface", "raw()", "html-var", "htmler-var", "helper-html", "reflect-value-of-string", "stringer-var", "named-string-with-String-method"}
+	"strings-element", "ifaces-element", "helper-string", "helper-iface", "raw()", "html-var", "htmler-var", "helper-html", "reflect-value-of-string", "stringer-var", "named-string-with-String-method", "time-zone-name"}
 
 // source sets up the context for payload p and returns the initial expression.
 func c01Source(k int, p string, ctx *plush.Context) (expr string, v c01Val, ok bool) {
@@ -303,9 +304,17 @@ func c01Source(k int, p string, ctx *plush.Context) (expr string, v c01Val, ok b
 		// what String() returns is a Go string like any other: not trusted HTML
 		ctx.Set("sgr", stringerFix{p})
 		return "sgr", c01Val{s: p}, true
-	default:
+	case 18:
 		ctx.Set("nsg", c01NamedStringer(p))
 		return "nsg", c01Val{s: p}, true
+	default:
+		// a time prints through its format; the name of its zone is data
+		if strings.ContainsAny(p, "\x00") {
+			return "", v, false
+		}
+		ctx.Set("TIME_FORMAT", "MST")
+		ctx.Set("tmz", time.Date(2020, 1, 2, 3, 4, 5, 0, time.FixedZone(p, 3600)))
+		return "tmz", c01Val{s: p}, true
 	}
 }
 
